@@ -34,7 +34,7 @@ MODELLED = ('frame.encode_frame: whole validation cascade (tables regenerated fr
             'offset, pydicom native path (option/length validation, words, unused-bit correction); '
             'pydicom EncodeRunner.validate for the encapsulated syntaxes. Codecs are premises.')
 STRATA = ['matrix_native', 'matrix_encaps', 'rt_native', 'rt_bits', 'rt_rle', 'rt_jls', 'nofit',
-          'decode_malformed', 'bit_index', 'ybr_full']
+          'decode_malformed', 'rle_malformed', 'bit_index', 'ybr_full']
 NOT_EXECUTED = ['JPEG 2000 / JPEG 2000 Lossless encoding (pylibjpeg-openjpeg not installed): only the '
                 'validation cascade in front of the codec is exercised']
 RULE = ('matrix_*: cells of the parameter matrix (syntax x array shape x bits allocated x bits stored x '
@@ -331,10 +331,58 @@ def gen_cases(rng, tier):
                           (1, 11), (3, 4), (1, 13), (2, 7), (3, 5), (4, 4), (1, 17), (3, 6), (1, 19), (4, 5),
                           (3, 7), (2, 11), (1, 23), (4, 6)][i]
         nf = rng.randint(1, 9)
-        frames = [_content(rng, rows * cols, 0, 1, rng.choice(['random', 'random', 'lo', 'hi']))
+        smp = 3 if i % 3 == 2 else 1        # three samples per pixel: frame size rows*cols*3 bits
+        frames = [_content(rng, rows * cols * smp, 0, 1, rng.choice(['random', 'random', 'lo', 'hi']))
                   for _ in range(nf)]
-        cases.append({'kind': 'bit_index', 'rows': rows, 'cols': cols, 'frames': frames,
+        cases.append({'kind': 'bit_index', 'rows': rows, 'cols': cols, 'frames': frames, 'samples': smp,
                       'index': rng.choice([0, nf - 1, rng.randrange(nf)]), 'ts': rng.choice(NATIVE)})
+    # ---- RLE Lossless with run-structured content: replicate / literal runs around the 128-byte limit,
+    #      rows wider than 128 pixels (every row is coded separately), two-byte samples, three planes
+    runlens = [1, 1, 2, 3, 5, 126, 127, 128, 129, 130, 255, 256, 257, 258]
+    widths = [1, 2, 127, 128, 129, 130, 200, 255, 256, 257, 258, 300]
+    for i in range({'quick': 30, 'thorough': 400, 'search': 200}[tier]):
+        colour = i % 5 == 4
+        s = 3 if colour else 1
+        ba = 16 if i % 3 == 2 else 8
+        pr = 1 if (not colour and i % 4 == 1) else 0
+        bs = ba if rng.random() < 0.6 else rng.randint(max(1, ba - 7), ba)
+        dt = {(8, 0): 'uint8', (16, 0): 'uint16', (8, 1): 'int8', (16, 1): 'int16'}[(ba, pr)]
+        cols = widths[i % len(widths)] if not colour else rng.choice([3, 64, 129, 130])
+        rows = rng.choice([1, 2, 3]) if cols * s * (ba // 8) < 500 else 1
+        lo, hi = _stored_range(bs, pr)
+        pool = [lo, hi, 0, min(hi, 1), min(hi, 255), rng.randint(lo, hi), rng.randint(lo, hi)]
+        if ba == 16 and rng.random() < 0.5:      # equal low bytes, differing high bytes (and vice versa)
+            pool = [v for v in (0, 256, 512, 513, 1, 257) if lo <= v <= hi] or pool
+        px = []
+        while len(px) < rows * cols:
+            px += [[rng.choice(pool) for _ in range(s)]] * rng.choice(runlens)
+        data = [v for q in px[:rows * cols] for v in q]
+        cases.append(_case('rt_rle', 'rle', rows, cols, colour, 3 if colour else 0, ba, bs,
+                           'RGB' if colour else rng.choice(MONO if pr == 0 else MONO[:2]), pr,
+                           rng.choice([0, 1]) if colour else None, dt, data))
+    # ---- decode_frame on damaged RLE streams (truncated, extended, header or body byte replaced)
+    for i in range({'quick': 40, 'thorough': 600, 'search': 300}[tier]):
+        colour = rng.random() < 0.3
+        s = 3 if colour else 1
+        ba = rng.choice([8, 16])
+        pr = 0 if colour else rng.choice([0, 0, 1])
+        dt = {(8, 0): 'uint8', (16, 0): 'uint16', (8, 1): 'int8', (16, 1): 'int16'}[(ba, pr)]
+        rows, cols = rng.randint(1, 4), rng.randint(1, 8)
+        lo, hi = _stored_range(ba, pr)
+        data = [rng.choice([lo, hi, 0, 1, rng.randint(lo, hi)]) for _ in range(rows * cols * s)]
+        c = _case('rle_malformed', 'rle', rows, cols, colour, 3 if colour else 0, ba, ba,
+                  'RGB' if colour else 'MONOCHROME2', pr, 0 if colour else None, dt, data)
+        mode = rng.choice(['cut', 'cut', 'ext', 'hdr', 'body', 'body'])
+        c['cut'], c['pos'], c['val'] = 0, -1, 0
+        if mode == 'cut':
+            c['cut'] = -rng.choice([1, 1, 2, 3, 4, 5, rng.randint(1, 80)])
+        elif mode == 'ext':
+            c['cut'] = rng.randint(1, 5)
+        elif mode == 'hdr':
+            c['pos'], c['val'] = rng.choice([0, 0, 4, 8, 1, 5]), rng.choice([0, 1, 2, 3, 6, 16, 64, 66, 200])
+        else:
+            c['pos'], c['val'] = rng.randint(64, 400), rng.choice([0, 1, 2, 126, 127, 128, 129, 130, 254, 255])
+        cases.append(c)
     # ---- the same values in another memory layout (the array VALUE is what must round-trip), and a
     #      preceding encode/decode of the same format with the other pixel representation (history)
     rng2 = random.Random(rng.random())
@@ -433,13 +481,15 @@ def _observe(c):
     if k == 'bit_index':
         import numpy as np
         from pydicom.pixels.utils import pack_bits
-        n = c['rows'] * c['cols']
+        smp = c.get('samples', 1)
+        n = c['rows'] * c['cols'] * smp
         flat = np.array([b for f in c['frames'] for b in f], dtype=np.uint8)
         stream = pack_bits(flat, pad=False)
         i = c['index']
         a, b = (i * n) // 8, ((i + 1) * n + 7) // 8
-        dec = _dec_val(lambda: hf.decode_frame(stream[a:b], TS[c['ts']][0], c['rows'], c['cols'], 1, 1, 1,
-                                               'MONOCHROME2', 0, None, index=i))
+        dec = _dec_val(lambda: hf.decode_frame(stream[a:b], TS[c['ts']][0], c['rows'], c['cols'], smp, 1, 1,
+                                               'MONOCHROME2' if smp == 1 else 'RGB', 0,
+                                               None if smp == 1 else 0, index=i))
         return {'out': dec, 'dec': dec}
     arr = _array(c)
     uid = TS[c['ts']][0]
@@ -495,12 +545,22 @@ def _observe(c):
         obs['dec'] = dec(v, c.get('index', 0))
         obs['out'] = obs['dec']
         return obs
+    if k == 'rle_malformed':
+        cut = c['cut']
+        v = value[:cut] if cut < 0 else value + bytes(range(1, cut + 1))
+        if c['pos'] >= 0 and len(v) > 0:
+            i = c['pos'] % len(v)
+            v = v[:i] + bytes([c['val']]) + v[i + 1:]
+        obs['dec'] = dec(v)
+        obs['out'] = obs['dec']
+        return obs
     obs['dec'] = dec(value)
     try:
         obs['pyd'] = _dec_val(lambda: _pydicom_one_frame(c, value))
     except Exception as e:      # noqa  (anything the reader raises is "not decodable")
         obs['pyd'] = Err(type(e).__name__)
-    if c['ts'] in NATIVE:
+    if c['ts'] in NATIVE + ('rle',):
+        # native and RLE Lossless: the produced bytes and decode_frame's result are model-compared
         d = obs['dec']
         if (not isinstance(d, Err)) and c['pi'] == 'YBR_FULL' and s == 3 and c['ba'] != 1:
             d = 'YBR_FULL->RGB'
@@ -537,13 +597,19 @@ def coq_term(c):
     k = c['kind']
     if k == 'bit_index':
         fr = '[' + '; '.join(zl(f) for f in c['frames']) + ']'
+        if c.get('samples', 1) != 1:
+            return f"(run_bit_index_s {c['rows']} {c['cols']} {c['samples']} {c['index']} {fr})"
         return f"(run_bit_index {c['rows']} {c['cols']} {c['index']} {fr})"
     vals = _wrapped(c)
     if k == 'decode_malformed':
         # the byte string is produced by the model's own encoder and damaged in the same way
         return f"(run_decode_damaged {_params(c)} {c.get('index', 0)} {zlit(c['cut'])} {zl(vals)})"
+    if k == 'rle_malformed':
+        return f"(run_rle_damaged {_params(c)} {zlit(c['cut'])} {zlit(c['pos'])} {zlit(c['val'])} {zl(vals)})"
     if c['ts'] in NATIVE:
         return f"(run_native {_params(c)} {zl(vals)})"
+    if c['ts'] == 'rle':
+        return f"(run_rle {_params(c)} {zl(vals)})"
     fn = 'run_cascade' if c['ts'] in ('j2k', 'j2kl') else 'run_validate'
     return f"({fn} {_params(c)} {zlit(min(vals))} {zlit(max(vals))})"
 
@@ -602,11 +668,14 @@ def oracle(c, out):
         obs = _observe(c)
     k = c['kind']
     if k == 'bit_index':
-        want = [[c['rows'], c['cols']], c['frames'][c['index']]]
+        want = [[c['rows'], c['cols']] + ([c['samples']] if c.get('samples', 1) > 1 else []),
+                c['frames'][c['index']]]
         return None if obs['dec'] == want else f"frame {c['index']} decoded as {obs['dec']}, stored {want}"
     vals = _wrapped(c)
     s = c['shape2'] if c['ndim3'] else 1
     want_shape = [c['rows'], c['cols']] + ([s] if s > 1 else [])
+    if k == 'rle_malformed':
+        return None     # no independent judgement on a damaged compressed stream: model comparison only
     if k == 'decode_malformed':
         d = obs['dec']
         if isinstance(obs['enc'], Err) or isinstance(d, Err):
